@@ -84,6 +84,12 @@ def _gen_filter(rng, modules, unknown_rate, allow_batch=True, hier=False):
             rx = ".*" + last + ".*"
         else:
             rx = ".*\\." + last + "$"
+        if allow_batch and rng.random() < 0.15 and len(mods) > 1:
+            # the list form shown in the documentation
+            m2 = W.pick(rng, [x for x in mods if x != m])
+            rx2 = ".*nosuchthing.*" if rng.random() < unknown_rate else "^" + m2.replace(".", "\\.") + "$"
+            if rx2 != rx:
+                return {"f": "have_name_matching", "v": sorted([rx, rx2])}
         return {"f": "have_name_matching", "v": [rx]}
     m = W.pick(rng, mods)
     last = m.rsplit(".", 1)[-1]
@@ -182,13 +188,13 @@ def compile_spec(obj, spec, rng=None, arch_obj=None):
         ops.append({"op": "new", "obj": obj, "cls": "Rule"})
         ops.append({"op": "call", "obj": obj, "m": "modules_that", "a": []})
         f = spec["subj"]
-        arg = f["v"][0] if f["f"] == "have_name_matching" else _listarg(f["v"], rng)
+        arg = f["v"][0] if f["f"] == "have_name_matching" and len(f["v"]) == 1 else _listarg(f["v"], rng)
         ops.append({"op": "call", "obj": obj, "m": f["f"], "a": [arg]})
         ops.append({"op": "call", "obj": obj, "m": spec["verb"], "a": []})
         ops.append({"op": "call", "obj": obj, "m": spec["imp"], "a": []})
         if spec["obj"] is not None:
             f = spec["obj"]
-            arg = f["v"][0] if f["f"] == "have_name_matching" else _listarg(f["v"], rng)
+            arg = f["v"][0] if f["f"] == "have_name_matching" and len(f["v"]) == 1 else _listarg(f["v"], rng)
             ops.append({"op": "call", "obj": obj, "m": f["f"], "a": [arg]})
     elif spec["kind"] == "layer":
         ops.append({"op": "new", "obj": obj, "cls": "LayerRule"})
